@@ -72,10 +72,24 @@ PROPS = {
         gen_obligations=["Gen.dictFiles","Gen.availableIds","Gen.decoderKeys","Gen.marshalCases","Gen.parentAppIds","Gen.avpCodeJoin","Gen.cmdCodeJoin","Gen.appCodeJoin","Gen.UndefinedVendorID"],
         trusted=["Model.Dict hand-written from dict/parser.go and dict/util.go; the extractor's own XML reading of dict/default.go and its name interning"],
     ),
+    "C10": dict(
+        domains=[("smserver", "hist", 1500, 20000), ("smserver", "cer", 500, 5000)],
+        relevant=["C10:"],
+        theorems=["DV.Props.C10."+t for t in ["C10_gate","C10_after","C10_meta_after_write","C10_history","C10_builtin","C10_names_refused","C10_gen"]],
+        gen_obligations=["Gen.smNewRegs","Gen.cmdCapabilitiesExchange","Gen.cmdDeviceWatchdog"],
+        trusted=["Model.SM hand-written from diam/sm/sm.go, cer.go, dwr.go, smparser/*.go, smpeer/metadata.go; dispatch through the C09 mux model"],
+    ),
+    "C11": dict(
+        domains=[("smserver", "cer", 2500, 40000), ("smserver", "hist", 800, 10000), ("smserver", "multi", 400, 5000)],
+        relevant=["C11:"],
+        theorems=["DV.Props.C11."+t for t in ["C11_accept_iff","C11_accept_meta","C11_reject_code","C11_cea_fields","C11_cea_identity","C11_gen"]],
+        gen_obligations=["Gen.rcSuccess","Gen.rcNoCommonApplication","Gen.rcNoCommonSecurity","Gen.rcUnableToComply","Gen.relayAppId","Gen.cmdCapabilitiesExchange"],
+        trusted=["Model.SM hand-written from diam/sm/cer.go and smparser (CER.Parse, Application.Parse, chooseErr, handleGroup, validate); getLocalAddresses as a table over the harness' endpoint menu"],
+    ),
     "C16": dict(
-        domains=[("codec", "answer", 6000, 100000)],
+        domains=[("codec", "answer", 6000, 100000), ("smserver", "hist", 800, 10000), ("smserver", "cer", 800, 10000)],
         relevant=["C16:"],
-        theorems=['DV.Props.C16.C16_answer_ids', 'DV.Props.C16.C16_answer_flags', 'DV.Props.C16.C16_answer_result_code', 'DV.Props.C16.C16_answer_stream', 'DV.Props.C16.C16_sctp_stream', 'DV.Props.C16.C16_answer_len', 'DV.Props.C16.C16_gen'],
+        theorems=['DV.Props.C16.C16_answer_ids', 'DV.Props.C16.C16_answer_flags', 'DV.Props.C16.C16_answer_result_code', 'DV.Props.C16.C16_answer_stream', 'DV.Props.C16.C16_sctp_stream', 'DV.Props.C16.C16_answer_len', 'DV.Props.C16.C16_gen', 'DV.Props.C16.C16_cea', 'DV.Props.C16.C16_dwa'],
         gen_obligations=['Gen.RequestFlag', 'Gen.InvalidStreamID', 'Gen.Mbit'],
         trusted=CODEC_TRUST,
     ),
